@@ -160,6 +160,8 @@ func VerifAdvEnfConsts() [][2]any {
 		{"protoDefaultMaxIncomingUniStreams", int64(protocol.DefaultMaxIncomingUniStreams)},
 		{"protoDefaultIdleTimeoutNs", int64(protocol.DefaultIdleTimeout)},
 		{"protoMaxPacketBufferSize", int64(protocol.MaxPacketBufferSize)},
+		{"protoDefaultAckDelayExponent", int64(protocol.DefaultAckDelayExponent)},
+		{"protoDefaultMaxAckDelayMs", int64(protocol.DefaultMaxAckDelay / time.Millisecond)},
 	}
 }
 
@@ -300,6 +302,10 @@ type VerifAdvEnfRecord struct {
 	ActiveConnectionIDLimit                                                  uint64
 	MaxDatagramFrameSize                                                     int64
 	MaxIdleTimeout                                                           int64 // ns
+	MaxUDPPayloadSize                                                        int64
+	AckDelayExponent                                                         int64
+	MaxAckDelay                                                              int64 // ns
+	DisableActiveMigration                                                   bool
 	InitialSourceConnectionID                                                []byte
 	ClientOverride                                                           []byte // nil on the plain path
 	HasOverride                                                              bool
@@ -313,6 +319,7 @@ func VerifAdvEnfReadRecord(c *Conn) (r VerifAdvEnfRecord, ok bool) {
 	return VerifAdvEnfRecord{
 		int64(p.InitialMaxData), int64(p.InitialMaxStreamDataBidiLocal), int64(p.InitialMaxStreamDataBidiRemote), int64(p.InitialMaxStreamDataUni),
 		int64(p.MaxBidiStreamNum), int64(p.MaxUniStreamNum), p.ActiveConnectionIDLimit, int64(p.MaxDatagramFrameSize), int64(p.MaxIdleTimeout),
+		int64(p.MaxUDPPayloadSize), int64(p.AckDelayExponent), int64(p.MaxAckDelay), p.DisableActiveMigration,
 		p.InitialSourceConnectionID.Bytes(), append([]byte(nil), p.ClientOverride...), p.ClientOverride != nil,
 	}, true
 }
@@ -329,6 +336,7 @@ func VerifAdvEnfPeerParams(c *Conn) (r VerifAdvEnfRecord, ok bool) {
 	return VerifAdvEnfRecord{
 		int64(p.InitialMaxData), int64(p.InitialMaxStreamDataBidiLocal), int64(p.InitialMaxStreamDataBidiRemote), int64(p.InitialMaxStreamDataUni),
 		int64(p.MaxBidiStreamNum), int64(p.MaxUniStreamNum), p.ActiveConnectionIDLimit, int64(p.MaxDatagramFrameSize), int64(p.MaxIdleTimeout),
+		int64(p.MaxUDPPayloadSize), int64(p.AckDelayExponent), int64(p.MaxAckDelay), p.DisableActiveMigration,
 		p.InitialSourceConnectionID.Bytes(), nil, false,
 	}, true
 }
